@@ -131,6 +131,7 @@ type FuncSpec struct {
 	Lets       []LetBind
 	Requires   []*Clause
 	Ensures    []*Clause
+	TrustedEnsures []*Clause
 	Modifies   []ModItem
 	HasMod     bool
 	Allocates  bool
@@ -598,7 +599,7 @@ var clauseKeywords = map[string]bool{
 	"emits": true, "complete": true, "disjoint": true, "loop": true, "invariant": true,
 	"calls": true, "property": true, "guarded_by": true, "lock_level": true, "immutable": true,
 	"confined": true, "let": true, "trusted": true, "lemma": true, "decreases": true, "noinline": true,
-	"with": true, "panics": true, "ghost": true, "update": true,
+	"with": true, "panics": true, "ghost": true, "update": true, "trusted_ensures": true,
 }
 
 type rawClause struct {
@@ -893,6 +894,9 @@ func parseSpecFile(path string, pkg string) (sf *SpecFile, err error) {
 				cl.N = len(curL.Invariants) + 1
 				curL.Invariants = append(curL.Invariants, cl)
 			}
+		case "trusted_ensures":
+			tags, body := parseTags(rc.text)
+			cur.TrustedEnsures = append(cur.TrustedEnsures, &Clause{Kind: "trusted_ensures", Text: body, X: mustExpr(body, where), Tags: tags, N: len(cur.TrustedEnsures) + 1})
 		case "with":
 			if curC == nil {
 				panic(fmt.Errorf("%s: with outside calls", where))
